@@ -149,7 +149,14 @@ def r2(ctx, tq, sch, wk):
     ctx.ob('C10.R2', sch, 'every Schedule pushes its entry exactly once', okp, 'pushes on a path: %d' % len(pushes), 'an action scheduled must run exactly once')
     rets = [e for e in ev if e.kind == 'ret']
     cn = [k for k in sch.nested]
-    ctx.ob('C10.R2', sch, 'Schedule returns the cancel closure', bool(rets) and len(cn) == 1 and U(rets[-1].node.value) == cn[0], 'returns %s' % (U(rets[-1].node) if rets else None),
+    okr = bool(rets) and len(cn) == 1 and U(rets[-1].node.value) == cn[0]
+    if not okr and rets and not cn and rets[-1].node.value is not None:
+      # functools.partial(<module-level function>, entry): a callable bound to this entry
+      from ..util import callback_bodies
+      v_ = rets[-1].node.value
+      okr = isinstance(v_, ast.Call) and len(v_.args) == 2 and U(v_.args[1]) == name and \
+        len([1 for n_, _b in callback_bodies(prog, sch, v_) if isinstance(n_, (ast.FunctionDef, ast.AsyncFunctionDef))]) == 1
+    ctx.ob('C10.R2', sch, 'Schedule returns the cancel closure', okr, 'returns %s' % (U(rets[-1].node) if rets else None),
            'the caller cancels through the returned closure', nontrivial=False)
   other_seq = [f.qualname for f in tq.methods.values() if f.name not in ('__init__', 'Schedule') for st in ast.walk(f.node)
                if isinstance(st, (ast.Assign, ast.AugAssign)) and 'self._seq' in [U(t) for t in (st.targets if isinstance(st, ast.Assign) else [st.target])]]
@@ -157,12 +164,26 @@ def r2(ctx, tq, sch, wk):
   # cancel closure writes the cancelled position of its own entry
   cn = list(sch.nested.values())
   if len(cn) != 1:
-    raise AnalysisError('C10.R2: cancel closure not found')
+    # the cancel callable written as functools.partial(<module-level function>, entry): the function with the entry bound stands for the closure
+    from ..util import callback_bodies
+    class _Fn(object):
+      pass
+    rv = [r.value for r in walk_no_nested(sch.node) if isinstance(r, ast.Return) and r.value is not None]
+    cands = [n for v in rv[-1:] for n, _b in callback_bodies(prog, sch, v) if isinstance(n, (ast.FunctionDef, ast.AsyncFunctionDef))] if not cn else []
+    if len(cands) != 1:
+      raise AnalysisError('C10.R2: cancel closure not found')
+    c_ = _Fn()
+    c_.node, c_.qualname, c_.name, c_.module = cands[0], sch.qualname + '.cancel', cands[0].name, sch.module
+    cn = [c_]
   cn = cn[0]
   wr = {}
   for st in ast.walk(cn.node):
     if isinstance(st, ast.Assign) and isinstance(st.targets[0], ast.Subscript) and U(st.targets[0].value) == name:
       wr[U(st.targets[0].slice)] = U(st.value)
+    elif isinstance(st, ast.Assign) and isinstance(st.targets[0], ast.Tuple) and isinstance(st.value, ast.Tuple) and len(st.targets[0].elts) == len(st.value.elts):
+      for t_, v_ in zip(st.targets[0].elts, st.value.elts):
+        if isinstance(t_, ast.Subscript) and U(t_.value) == name:
+          wr[U(t_.slice)] = U(v_)
   okc = wr.get(str(pos['cancelled'])) == 'True' and all(k in (str(pos['cancelled']), str(pos['action'])) for k in wr)
   ctx.ob('C10.R2', cn, 'cancel sets the cancelled flag of its own entry only', okc, 'cancel writes %s' % wr,
          'an action cancelled before its deadline never runs, and cancelling never affects any other action')
